@@ -43,7 +43,9 @@ CFG = {
     "C09": ({"plain": 300000, "asan": 30000},             {"plain": 10000000, "asan": 1000000}),
     "C10": ({"plain": 200000, "asan": 20000},             {"plain": 8000000, "asan": 600000}),
     "C11": ({"plain": 400000, "asan": 40000},             {"plain": 15000000, "asan": 1200000}),
-    "C12": ({"plain": 100000, "tsan": 6000, "asan": 8000}, {"plain": 4000000, "tsan": 250000, "asan": 300000}),
+    # "+isolate": every run in a process of its own, so that nothing of the library has run before the concurrent phase
+    # (first-use races on process-wide state such as function-local statics)
+    "C12": ({"plain": 100000, "tsan": 6000, "tsan+isolate": 1500, "asan": 8000}, {"plain": 4000000, "tsan": 250000, "tsan+isolate": 60000, "asan": 300000}),
     "C15": ({"plain": 60000, "asan": 15000, "tsan": 3000}, {"plain": 2500000, "asan": 500000, "tsan": 100000}),
     "C16": ({"plain": 300000, "asan": 30000},             {"plain": 10000000, "asan": 1000000}),
     "C19": ({"plain": 20000, "asan": 2000},               {"plain": 800000, "asan": 60000}),
@@ -132,13 +134,16 @@ def matches_known(v, replay_text, findings):
 
 
 def run_batch(prop, variant, seed, runs, tier, tag, workers=16, extra=None, digests=None, first=0):
-    out = os.path.join(B, f"sum_{prop}_{variant}_{tag}.json")
+    out = os.path.join(B, f"sum_{prop}_{variant.replace('+', '_')}_{tag}.json")
     if os.path.exists(out):
         os.unlink(out)
-    cmd = [os.path.join(B, f"stsim_{variant}"), "run", "--prop", prop, "--seed", str(seed), "--runs", str(runs), "--workers", str(workers),
+    base = variant.split("+")[0]
+    cmd = [os.path.join(B, f"stsim_{base}"), "run", "--prop", prop, "--seed", str(seed), "--runs", str(runs), "--workers", str(workers),
            "--tier", tier, "--out", out, "--replay-dir", os.path.join(ROOT, "replays"), "--first", str(first)]
-    if variant == "tsan":
+    if base == "tsan":
         cmd += ["--max-violations", "1", "--min-budget", "150"]
+    if "+isolate" in variant:
+        cmd += ["--isolate"]
     if digests:
         cmd += ["--digests", digests]
     if extra:
@@ -202,7 +207,7 @@ def main():
     plan = CFG[prop][0 if tier == "quick" else 1]
     scale = float(os.environ.get("VERIF_SCALE", "1"))
     t_start = time.time()
-    build_s = build(set(plan.keys()))
+    build_s = build(set(v.split("+")[0] for v in plan.keys()))
     findings, fixed = load_known()
 
     summaries, harness, candidates = {}, [], []
